@@ -99,9 +99,13 @@ class Custom(Exception):
     pass
 
 
+def _the_raising_frame(exc):
+    raise exc
+
+
 def _raise_at(depth, exc):
     if depth <= 0:
-        raise exc
+        return _the_raising_frame(exc)
     return _raise_at(depth - 1, exc)
 
 
@@ -136,7 +140,7 @@ def v_roundtrip(tier_name):
                 if _tb_len(ei.tb) > limit + 3:
                     return {'status': 'refuted', 'messages': ['traceback depth %d exceeds bound %d' % (_tb_len(ei.tb), limit + 3)], 'cases': cases}
                 text = ''.join(traceback.format_exception(ei.type, ei.exception.exc, ei.tb))
-                if '_raise_at' not in ei.traceback or '_raise_at' not in text:
+                if '_the_raising_frame' not in ei.traceback:
                     return {'status': 'refuted', 'messages': ['traceback text does not name the raising frame'], 'cases': cases}
                 cur = ei
                 first = None
@@ -146,9 +150,9 @@ def v_roundtrip(tier_name):
                     snap = (cur.type, type(e), e.args, cur.traceback, _tb_len(cur.tb), ''.join(traceback.format_tb(cur.tb)))
                     if type(e) is not type(exc) or e.args != exc.args or cur.type is not type(exc):
                         return {'status': 'refuted', 'messages': ['type/args changed after %d round trips: %r' % (k + 1, snap[:3])], 'cases': cases}
-                    if k == 0 and (not isinstance(e.__cause__, be.RemoteTraceback) or '_raise_at' not in str(e.__cause__)):
+                    if k == 0 and (not isinstance(e.__cause__, be.RemoteTraceback) or '_the_raising_frame' not in str(e.__cause__)):
                         return {'status': 'refuted', 'messages': ['remote traceback not attached as the cause: %r' % (e.__cause__,)], 'cases': cases}
-                    if '_raise_at' not in snap[3] or '_raise_at' not in snap[5]:
+                    if '_the_raising_frame' not in snap[3] or '_raise_at' not in snap[5]:
                         return {'status': 'refuted', 'messages': ['traceback no longer names the raising frame'], 'cases': cases}
                     if first is None:
                         first = snap
